@@ -135,7 +135,17 @@ func sameOperation(x, y iface.Operation) bool {
 
 // strings with separators, escapes, control characters and wide code points
 var c14Strings = []string{"key", "q\"b\\s/:~\n\t", "ctl\x07\x0b\x00\x1c\x7f", "\u00e9\u4e2d\U0001F600\U000E0001",
-	"re\\u2028\\u2029\\n\\\"x", "sep\u2028\u2029<>&"}
+	"re\\u2028\\u2029\\n\\\"x", "sep\u2028\u2029<>&", c14Long, "y" + c14Long, "zz" + c14Long}
+
+// a text longer than any buffer or limit one would put on a message (several hundred
+// bytes), with multi-byte characters at every offset modulo 3
+var c14Long = func() string {
+	s := "x"
+	for i := 0; i < 150; i++ {
+		s += "\u4e2d" + string(rune('a'+i%26))
+	}
+	return s
+}()
 
 func VF_C14_Encoding() {
 	w := vfNewWorld()
@@ -189,7 +199,9 @@ func VF_C14_Encoding() {
 		o.GetBody().T = []*model.Timestamp{c14TS("t0")}
 		op = o
 	case 12:
-		op = operations.NewErrorOperationWithCodeAndMsg(302, str)
+		eo := operations.NewErrorOperationWithCodeAndMsg(302, str)
+		vf.Assert(eo.GetMessage() == str && eo.GetCode() == 302, "C14 an operation carries the values it was built with")
+		op = eo
 	}
 	id := &model.OperationID{Era: 0, Lamport: vf.U64("id.lamport"), CUID: vf.UID("id.cuid"), Seq: vf.U64("id.seq")}
 	op.SetID(id)
